@@ -24,7 +24,7 @@ GuestOps(full, live) ==
 HostOps(full, live) ==
     {[op |-> o, k |-> k, v |-> 4] : o \in {"xnew", "xmake"}, k \in Keys \ live}
     \cup {[op |-> "xmakeopt", k |-> k, v |-> v] : k \in Keys \ live, v \in {4, 5}}
-    \cup {[op |-> o, k |-> k] : o \in {"xget", "xlook", "xtake", "xdrop"}, k \in live}
+    \cup {[op |-> o, k |-> k] : o \in {"xget", "xlook", "xtake", "xunwrap", "xdrop"}, k \in live}
 
 FullAfter(full, o) ==
     CASE o.op \in {"new", "make"} -> full \cup {o.s}
@@ -36,7 +36,7 @@ FullAfter(full, o) ==
 LiveAfter(live, o) ==
     CASE o.op \in {"xnew", "xmake"} -> live \cup {o.k}
       [] o.op = "xmakeopt" -> IF o.v % 2 = 0 THEN live \cup {o.k} ELSE live
-      [] o.op \in {"xtake", "xdrop"} -> live \ {o.k}
+      [] o.op \in {"xtake", "xunwrap", "xdrop"} -> live \ {o.k}
       [] OTHER -> live
 
 -----------------------------------------------------------------------------
@@ -47,7 +47,7 @@ Bad(St, msg) == IF St.bad = "" THEN [St EXCEPT !.bad = msg] ELSE St
 Need(St, c, msg) == IF c THEN St ELSE Bad(St, msg)
 Empty == [x \in {} |-> 0]
 S0 == [own |-> {}, gone |-> {}, hx |-> Empty, repOf |-> Empty, created |-> {}, destroyed |-> {}, inDtor |-> 0,
-       lent |-> {}, given |-> {}, bad |-> ""]
+       lent |-> {}, given |-> {}, moved |-> {}, unwrapping |-> 0, bad |-> ""]
 
 Step(St, e) ==
     CASE e.ev = "history" -> S0
@@ -78,11 +78,19 @@ Step(St, e) ==
       [] e.ev = "x.hostdrop" -> [St EXCEPT !.hx = IF e.h \in DOMAIN @ THEN [@ EXCEPT ![e.h].holder = "dropped"] ELSE @]
       [] e.ev = "x.dtor" -> [St EXCEPT !.inDtor = e.rep]
       [] e.ev = "x.dtor-done" ->
-            Need([St EXCEPT !.inDtor = 0], Cardinality(St.destroyed) = Cardinality({r \in DOMAIN St.repOf : St.hx[St.repOf[r]].holder = "dropped"}),
+            \* every handle that is gone accounts for one Rust value: destroyed by the destructor, or moved out by `into_inner`
+            LET out == St.moved \cup (IF St.unwrapping # 0 THEN {St.unwrapping} ELSE {}) IN
+            Need([St EXCEPT !.inDtor = 0],
+                 Cardinality(St.destroyed \ out) + Cardinality(out) = Cardinality({r \in DOMAIN St.repOf : St.hx[St.repOf[r]].holder = "dropped"}),
                  "the destructor export did not destroy the Rust value of the resource exactly once (C07)")
+      [] e.ev = "x.unwrap-begin" -> [St EXCEPT !.unwrapping = e.id]
+      [] e.ev = "x.unwrap-end" -> [Need(St, e.id \notin St.destroyed, "a Rust value taken out of its handle with into_inner was destroyed by the destructor all the same (C07)")
+                                   EXCEPT !.unwrapping = 0, !.moved = @ \cup {e.id}]
       [] e.ev = "x.destroyed" ->
             Need(Need([St EXCEPT !.destroyed = @ \cup {e.id}], e.id \notin St.destroyed, "the Rust value of an exported resource was destroyed twice (C07)"),
-                 St.inDtor # 0, "the Rust value of an exported resource was destroyed outside its destructor call: while only borrowed, or although the host still holds it (C07)")
+                 (St.inDtor # 0 /\ e.id # St.unwrapping) \/ (St.inDtor = 0 /\ e.id \in St.moved),
+                 "the Rust value of an exported resource was destroyed outside its destructor call (while only borrowed, or although the host still holds it), "
+                 \o "or by the destructor although it had been moved out with into_inner (C07)")
       [] e.ev = "x.seen" -> Need(St, e.id \in St.created /\ e.id \notin St.destroyed, "an exported function was handed a destroyed or foreign Rust value (C07)")
       [] e.ev = "history-end" ->
             Need(Need(St, St.own = {}, "own handles of the imported resource were never dropped nor given away (leak) (C07)"),
